@@ -562,6 +562,11 @@ func c16SemTie(stream, src string, r *Result, execModel, semModel *Model) {
 		r.Violate(Violation{Kind: "correspondence", Key: stream + ":model-crash", Detail: err.Error(), Input: in})
 		return
 	}
+	if ans == "model-stack-overflow" || ans == "model-out-of-memory" {
+		// exponentially growing strings (s = s + s in nested loops) are lists of code points in the model: a resource skip
+		r.Dist(stream + ":" + ans)
+		return
+	}
 	mx, err := ParseSX(ans)
 	if err != nil || mx.Kind != "lst" || len(mx.L) < 1 {
 		r.Violate(Violation{Kind: "correspondence", Key: stream + ":model-output", Detail: ans, Input: in})
